@@ -70,15 +70,19 @@ pub mod rusqlite_error {
 pub struct HStore<I: Backing> {
     pub inner: Arc<I>,
     pub ctl: Arc<Ctl>,
+    /// false once the node incarnation owning this handle was stopped: whatever
+    /// of its tasks is still scheduled (the harness cannot kill them the way a
+    /// process exit would) must not reach the storage the next incarnation runs on
+    pub alive: Arc<AtomicBool>,
 }
 
 impl<I: Backing> HStore<I> {
     pub fn new(inner: Arc<I>, ctl: Arc<Ctl>) -> Self {
-        Self { inner, ctl }
+        Self { inner, ctl, alive: Arc::new(AtomicBool::new(true)) }
     }
 
     fn take_mode(&self) -> (i64, i64) {
-        if self.ctl.fail_all.load(Ordering::SeqCst) {
+        if !self.alive.load(Ordering::SeqCst) || self.ctl.fail_all.load(Ordering::SeqCst) {
             return (0, -1);
         }
         (self.ctl.fail_after.swap(-1, Ordering::SeqCst), self.ctl.park_after.swap(-1, Ordering::SeqCst))
